@@ -1106,6 +1106,8 @@ map_string (svalue_t * arg, int num_arg)
 
   for (p = arr; *p; p++)
     {
+      if (ob && (ob->flags & O_DESTRUCTED))
+        break;			/* destructed by an earlier call: like a function that is gone */
       push_number ((unsigned char) *p);
       if (numex)
         push_some_svalues (extra, numex);
